@@ -49,13 +49,37 @@ class C02(Check):
             vitems = [["f", rng.choice([["bool"], ["u", 8, "s"], ["u", 13, "t"], ["var", ["u", 8, "s"], 2]]), "v%d" % i] for i in range(nv)]
             root["defs"].append({"name": rn + ".Tag", "ver": [1, 0], "port": None, "ext": "dsdl", "dep": False,
                                  "secs": [{"union": True, "hdr": None, "items": vitems, "seal": "sealed" if rng.random() < 0.6 else 8 * 64}]})
-        return {"ws": ws}
+        # a definition with an *approximately equal* second revision (same name, version, kind, min, max and residues mod 32 of
+        # the length set, different members) used as the element of a fixed and of a variable-length array
+        apx = None
+        if rng.random() < 0.4 and not ({(rn + ".Apx").lower(), (rn + ".ApxHost").lower()} & used):
+            a, m = rng.choice([(3, 5), (3, 6), (4, 6), (4, 7), (5, 7), (5, 8), (1, 8)])
+            body_a = [["f", ["u", 8, "s"], "h"], ["f", ["var", ["u", 8, "s"], a + m], "p"]]
+            body_b = [["f", ["var", ["u", 8, "s"], a], "p"], ["f", ["var", ["u", 8 * m, "s"], 1], "e"]]
+            if rng.random() < 0.3:
+                body_a, body_b = [["f", ["var", ["u", 32, "s"], 2], "a"]], [["f", ["var", ["u", 64, "s"], 1], "a"]]
+            first, second = (body_a, body_b) if rng.random() < 0.5 else (body_b, body_a)
+            root["defs"].append({"name": rn + ".Apx", "ver": [1, 0], "port": None, "ext": "dsdl", "dep": False,
+                                 "secs": [{"union": False, "hdr": None, "items": first, "seal": "sealed"}]})
+            ref = ["ref", rn + ".Apx", 1, 0]
+            root["defs"].append({"name": rn + ".ApxHost", "ver": [1, 0], "port": None, "ext": "dsdl", "dep": False,
+                                 "secs": [{"union": False, "hdr": None, "items": [["f", ["arr", ref, rng.randint(2, 3)], "fa"], ["f", ["var", ref, 2], "va"], ["f", ref, "one"], ["f", ["u", 8, "s"], "tail"]], "seal": "sealed"}]})
+            apx = {"key": rn + ".Apx.1.0", "alt_items": second}
+        return {"ws": ws, "apx": apx}
 
     def execute(self, scn: dict) -> Outcome:
         from .c06 import permuted_revision
+        import copy
         out = Outcome()
         self._run(scn["ws"], out)
         ws2 = permuted_revision(scn["ws"], 12345)
+        if scn.get("apx"):
+            ws2 = ws2 if ws2 is not None else copy.deepcopy(scn["ws"])
+            for r0 in ws2["roots"]:
+                for d0 in r0["defs"]:
+                    if T.def_key(d0) == scn["apx"]["key"]:
+                        d0["secs"][0]["items"] = copy.deepcopy(scn["apx"]["alt_items"])
+            out.stats["approximately_equal_revision"] += 1
         if ws2 is not None:
             try:
                 W.validate_ws(ws2)
